@@ -6,7 +6,7 @@ import glob
 for f in sorted(glob.glob(f'/verif/seeded/{pid}-*/meta.json')):
     m = json.load(open(f))
     prev.append("- " + str(m.get('summary', ''))[:600].replace("\n", " "))
-base = subprocess.run(['python3', '/tmp/seed_prompt.py', pid], stdout=subprocess.PIPE, text=True).stdout
+base = subprocess.run(['python3', '/verif/tools/seed_prompt.py', pid], stdout=subprocess.PIPE, text=True).stdout
 base = base.replace(f'/tmp/seed_{pid}', f'/tmp/seed_{pid}{suffix}')
 extra = "\nIMPORTANT — earlier seeded defects for this property already exist; yours must be in a DIFFERENT function or mechanism and need a DIFFERENT kind of condition to manifest (do not re-use or vary these):\n" + "\n".join(prev) + "\nAim for a defect that is harder to stumble upon: e.g. it needs a particular combination of two parameters, an input of a particular size class, a sequence of three or more operations, a rarely taken branch (retry path, spill/overflow path, last-block or last-word handling, a non-default type parameter), or an interaction between two methods.\n"
 print(base.replace("Steps:\n", extra + "\nSteps:\n", 1))
